@@ -11,7 +11,7 @@ ENGINE_NOTE = ("Trusted: TLC; the Ref definitions of spec/NinjaRef.tla (written 
                "completion orders enumerated by DFS up to a cap per scenario.")
 
 CHECKS = {
- "C01": dict(cat="model_checking", ref="6.C01", tech="TLA+ reference semantics (NinjaRef!CleanContent) checked by TLC on traces of the real engine classes replayed over TLC-generated scenario families (trace validation)",
+ "C01": dict(cat="model_checking", ref="6.C01", tech="TLA+ reference semantics (NinjaRef!CleanContent) checked by TLC on traces of the real engine classes replayed over TLC-generated scenario families (trace validation); part of the families also on the real ninja binary with real files and mtimes",
              text="Every execution of the real scan/plan/build/log classes over TLC-generated graph x history scenarios, under every completion order, is validated by TLC against the reference make semantics: after exit 0 every needed output must equal CleanContent. Known finding KF-DEPS-SKIPPED is reported by signature."),
  "C02": dict(cat="model_checking", ref="6.C02", tech="TLC trace validation of real-engine executions against RefTrace.tla (second build of the same targets must start nothing)",
              text="Same pipeline as C01; the monitor is the action property over two consecutive invocations without an intervening change."),
